@@ -46,6 +46,10 @@ CLAIMED = {
             "Partial (structural clauses): error/nil discipline, guards dominate draws, bounds >= 1, no reachable panic other than the intended CSPRNG-failure panic, attempt budget. The numeric clause (SuccessProbability exact; ordinary recipes never refused) is not decided.",
             "Trusted: listed foreign functions do not panic; set interface values non-nil; no int/uint32 wrap. NOT decided: exactness of SuccessProbability; the NaN refusal for overlapping required sets is not reported.",
             "DESIGN.md section 3 C13"),
+    "C11": ("writer/reader agreement rules: unit-of-measure dataflow (bytes vs characters), kind-table and layout agreement, linear prover for the narrowing-conversion guard",
+            "Static decision that encoder (MakeIndices, Kind) and decoder (Tokenize) agree on units, kind tables, per-kind layout and sizes, and that lossy conversions are guarded exactly at 255; with Split/Join inverse (trusted) this gives the round trip for all tokens of 1..255 characters, ASCII or not.",
+            "Trusted: strings.Split(s,\"\")/Join inverse on character boundaries; utf8.RuneCountInString counts the same units. Not decided: value equality as such.",
+            "DESIGN.md section 3 C11"),
 }
 
 NOT_APPLICABLE = {
